@@ -138,6 +138,26 @@ def gen_cases(ctx, rng):
         cases.append({"dir": rng.choice(["upstream", "downstream"]), "chain": chain, "src": src, "ops": ops, "sink_delay": [slow],
                       "horizon": 36000 * 1000 * L.MS, "seed": 3500 + i})
         stats["switched_on_while_blocked"] = stats.get("switched_on_while_blocked", 0) + 1
+    # a toxic that is not the last of its direction is removed (or all are reset, front to back) while both it and a toxic behind it
+    # hold data: what it still holds must go on through the toxics behind it, in order
+    for i in range(16 if ctx.tier == "quick" else 400):
+        front = L.tx("latency", name="t0", latency=rng.choice([300, 600, 900]), jitter=0)
+        behind = rng.choice([L.tx("latency", name="t1", latency=rng.choice([300, 600]), jitter=0), L.tx("bandwidth", name="t1", rate=rng.choice([1, 2, 5])),
+                             L.tx("slicer", name="t1", average_size=64, size_variation=0, delay=15000)])
+        chain = [front, behind] + ([L.tx("noop", name="t2")] if rng.chance(1, 3) else [])
+        src, t = [], 1 * L.MS
+        period = rng.choice([10, 25, 40]) * L.MS + rng.range(0, 999)
+        for _ in range(rng.range(12, 26)):
+            src.append({"at": t, "n": rng.range(20, 200)})
+            t += period
+        t1 = front["attributes"]["latency"] * L.MS + rng.range(50, 300) * L.MS + 333
+        ops = [{"at": t1, "op": rng.choice(["remove", "remove", "reset"]), "name": "t0"}]
+        if ops[0]["op"] == "reset":
+            del ops[0]["name"]
+        src.append({"at": max(t, t1) + rng.range(8000, 12000) * L.MS, "close": True})
+        cases.append({"dir": rng.choice(["upstream", "downstream"]), "chain": chain, "src": src, "ops": ops,
+                      "horizon": 36000 * 1000 * L.MS, "seed": 4200 + i})
+        stats["front_removed_with_backlog"] = stats.get("front_removed_with_backlog", 0) + 1
     return cases, stats
 
 
